@@ -201,6 +201,9 @@ fn sub_lattice(spec: &Spec) -> Vec<V> {
             V::So3(quat_axis_angle([0.0, 0.0, 1.0], 90.0)),
             V::So3(neg(quat_axis_angle([0.0, 0.0, 1.0], 2.0))),
             V::So3(quat_axis_angle([1.0, 0.0, 0.0], 180.0)),
+            // a unit quaternion whose dot product with itself rounds below 1: the space's distance from it to itself
+            // is 4e-8, not 0 (whatever a compound makes of that, it is what its component reports)
+            V::So3(unit([1.0, 2.0, 3.0, 4.0])),
         ],
         // a compound as a component: every third state of its own product lattice (at least 3)
         Spec::Cmp { parts, .. } => {
